@@ -844,7 +844,13 @@ class StaticGenerativeFunction(Generic[R], GenerativeFunction[R]):
             ),
         ) = update_transform(self.source)(key, trace, constraint, argdiffs)
         if not Diff.static_check_tree_diff(retval_diffs):
-            retval_diffs = Diff.no_change(retval_diffs)
+            # constants in the return value come back untagged: tag only those
+            # leaves NoChange and keep the tags computed for the others
+            retval_diffs = jtu.tree_map(
+                lambda v: v if Diff.is_diff(v) else Diff.no_change(v),
+                retval_diffs,
+                is_leaf=Diff.is_diff,
+            )
 
         def make_bwd_request(traces, subconstraints):
             addresses = traces.keys()
